@@ -27,3 +27,57 @@ def sf_at_entry(ex, st, *a):
 
 def install(reg):
     reg.specfuncs.update(isnew=sf_isnew, isold=sf_isold, isnan=sf_isnan)
+
+
+# ---------------------------------------------------------------- folds over float lists
+_B = z3.ArraySort(z3.IntSort(), z3.BoolSort())
+_R = z3.ArraySort(z3.IntSort(), z3.RealSort())
+SUMNN = z3.Function("sumnn", _B, _R, z3.IntSort(), z3.RealSort())      # sum of the non-NaN among the first n
+COUNTNN = z3.Function("countnn", _B, z3.IntSort(), z3.IntSort())       # number of non-NaN among the first n
+
+
+def _float_list(l):
+    if not isinstance(l.kind, KList):
+        raise OutOfSubset("fold over %r" % (l.kind,))
+    if isinstance(l.kind.elem, KFloat):
+        return l.terms[1], l.terms[2]
+    if isinstance(l.kind.elem, KReal):
+        return z3.K(z3.IntSort(), FALSE), l.terms[1]
+    raise OutOfSubset("fold over list of %r" % (l.kind.elem,))
+
+
+def sf_sumnn(ex, st, l, n):
+    a, b = _float_list(l)
+    return vfloat(SUMNN(a, b, to_int(n)))
+
+
+def sf_countnn(ex, st, l, n):
+    a, b = _float_list(l)
+    return vint(COUNTNN(a, to_int(n)))
+
+
+def ax_sumnn():
+    a, b, n = z3.Const("a!f", _B), z3.Const("b!f", _R), z3.Int("n!f")
+    return [z3.ForAll([a, b, n], z3.Implies(n <= 0, SUMNN(a, b, n) == 0), patterns=[SUMNN(a, b, n)]),
+            z3.ForAll([a, b, n], z3.Implies(n > 0, SUMNN(a, b, n) == SUMNN(a, b, n - 1) +
+                                            z3.If(z3.Select(a, n - 1), z3.RealVal(0), z3.Select(b, n - 1))),
+                      patterns=[SUMNN(a, b, n)])]
+
+
+def ax_countnn():
+    a, n = z3.Const("a!f", _B), z3.Int("n!f")
+    return [z3.ForAll([a, n], z3.Implies(n <= 0, COUNTNN(a, n) == 0), patterns=[COUNTNN(a, n)]),
+            z3.ForAll([a, n], z3.Implies(n > 0, COUNTNN(a, n) == COUNTNN(a, n - 1) +
+                                         z3.If(z3.Select(a, n - 1), 0, 1)), patterns=[COUNTNN(a, n)]),
+            z3.ForAll([a, n], z3.Implies(n >= 0, z3.And(COUNTNN(a, n) >= 0, COUNTNN(a, n) <= n)), patterns=[COUNTNN(a, n)])]
+
+
+_install0 = install
+
+
+def install(reg):  # noqa: F811
+    _install0(reg)
+    reg.specfuncs.update(sumnn=sf_sumnn, countnn=sf_countnn)
+    reg.axioms.append(("sumnn", ax_sumnn))
+    reg.axioms.append(("countnn", ax_countnn))
+    reg.auto_inline |= {"tracklib.core.utils:listify", "tracklib.core.utils:isnan"}
